@@ -84,6 +84,10 @@ type okStringer struct{ s string }
 
 func (o okStringer) String() string { return o.s }
 
+type sliceStringer []string
+
+func (s sliceStringer) String() string { return strings.Join(s, "") }
+
 type panicStringer struct{}
 
 func (panicStringer) String() string { panic("String() of a hostile value") }
@@ -194,6 +198,12 @@ func other(tag int) interface{} {
 		return l
 	case 32:
 		return [1000]byte{1}
+	case 35: // lazily computed attributes: functions are values like any other, they are never called
+		return func() interface{} { return nil }
+	case 36:
+		return func() interface{} { return true }
+	case 37:
+		return func() interface{} { return map[string]interface{}{"admin": true} }
 	case 33: // a list of strings with capitals (in-place lower-casing would show)
 		return []string{"Admin", "ROOT", "Ops"}
 	case 34:
@@ -282,6 +292,12 @@ func buildVal(x *sexp) (interface{}, error) {
 			return nil, errors.New("bad string")
 		}
 		return &ptrStringer{s}, nil
+	case "strslice": // a Stringer whose dynamic type is not comparable (like net.IP)
+		s, ok := hexBytes(a)
+		if !ok {
+			return nil, errors.New("bad string")
+		}
+		return sliceStringer(strings.Split(s, "")), nil
 	case "jnum": // encoding/json's Number: a named string type with a String method
 		s, ok := hexBytes(a)
 		if !ok {
@@ -984,6 +1000,43 @@ func doLine(line string) string {
 			return id + " BADCASE"
 		}
 		return doSyntax(id, t)
+	case "ileave":
+		// two evaluators alive at the same time: create A, create B, then process with A, then with B
+		ra, ok1 := hexBytes(x.list[2].atom)
+		rb, ok2 := hexBytes(x.list[3].atom)
+		if !ok1 || !ok2 || len(x.list) != 5 {
+			return id + " BADCASE"
+		}
+		ov, err := buildVal(x.list[4])
+		if err != nil {
+			return id + " BADCASE"
+		}
+		obj, ok := ov.(map[string]interface{})
+		if !ok {
+			return id + " BADCASE"
+		}
+		var outs []string
+		func() {
+			defer func() {
+				if r := recover(); r != nil {
+					outs = append(outs, "ESCAPED")
+				}
+			}()
+			ea, erra := parser.NewEvaluator(ra)
+			eb, errb := parser.NewEvaluator(rb)
+			for _, e := range []struct {
+				ev  *parser.Evaluator
+				err error
+			}{{ea, erra}, {eb, errb}, {ea, erra}} {
+				if e.err != nil || e.ev == nil {
+					outs = append(outs, "0,other,nil")
+					continue
+				}
+				v, perr := e.ev.Process(obj)
+				outs = append(outs, b01(v)+","+errClass(perr)+","+dbgClass(e.ev.LastDebugErr()))
+			}
+		}()
+		return id + " out=" + strings.Join(outs, ";")
 	case "cyclic":
 		n, err := strconv.Atoi(x.list[2].atom)
 		if err != nil {
